@@ -100,7 +100,7 @@ def _toDOMname(CSSname):
     return _reCSStoDOMname.sub(_doCSStoDOMname2, CSSname)
 
 
-_reDOMtoCSSname = re.compile('([A-Z])[a-z]+')
+_reDOMtoCSSname = re.compile('([A-Z])[a-z]+|(?<=[a-z])[A-Z](?![A-Za-z])')
 
 
 def _toCSSname(DOMname):
